@@ -780,8 +780,12 @@ class KLMReader(Reader):
         jday = self.head["start_of_data_set_day_of_year"]
         msec = self.head["start_of_data_set_utc_time_of_day"]
         try:
-            return self.to_datetime(self.to_datetime64(year=year, jday=jday,
-                                                       msec=msec))
+            timestamp = self.to_datetime(self.to_datetime64(year=year, jday=jday,
+                                                            msec=msec))
+            if not all(isinstance(ts, datetime.datetime) for ts in np.ravel(timestamp)):
+                # numpy returns an integer for dates outside the datetime range
+                raise ValueError("year {0} out of range".format(year))
+            return timestamp
         except ValueError as err:
             raise ValueError("Corrupt header timestamp: {0}".format(err))
 
